@@ -18,7 +18,7 @@ from harness import common, nnd_corr, refmetrics
 from harness.common import fmt
 
 COQ_FILES = ["model/Base.v", "model/Heap.v", "model/Rng.v", "model/NND.v", "proofs/ListAux.v", "proofs/HeapProofs.v",
-             "proofs/HeapTopK.v", "proofs/HeapArrays.v", "proofs/HeapSort.v", "proofs/NNDProofs.v", "proofs/C01Proofs.v"]
+             "proofs/HeapTopK.v", "proofs/HeapArrays.v", "proofs/HeapSort.v", "proofs/NNDProofs.v", "proofs/C01Proofs.v", "proofs/C01Loop.v"]
 SENTINELS = {"pynndescent/utils.py": ["checked_flagged_heap_push", "deheap_sort", "new_build_candidates",
                                       "apply_graph_updates_low_memory", "apply_graph_updates_high_memory",
                                       "initalize_heap_from_graph_indices", "initalize_heap_from_graph_indices_and_distances",
